@@ -408,7 +408,7 @@ fn read_drop_cancelled(e: &'static Engine, workers: usize) {
         leave_r();
         drop(g);
     });
-    e.wait_label("rwlock.read.counting");
+    e.wait_hit(bp);
     sem.post();
     // A is queued on the reader mutex, inside the drop of its guard
     e.quiesce();
